@@ -14,7 +14,7 @@ ASSUME = [
     "project 2025-01-06 +3w, default calendar (or the listed zone shift), generous horizon: runs whose project end was extended are counted and skipped",
     "a task with an own pinned start has no dependencies in the universe (the statement does not rank pin against dependencies)",
     "alternatives are not part of the statement's rule and are not generated",
-    "'wide7' family: the two ten-task bases of mc/props/wide.py restricted to the core dialect (efforts rounded to whole hours, no alternatives, slot-aligned gaps) x every subset of <= 2 (thorough: <= 3) of 25 toggles (resolutions 30/15/10, efficiency 0.5, weekend-only resource, leaves, vacation, resource/group/task limits, gaps, priorities, container pin, month boundary, zoned hours, split hours, multi-week effort, fifth resource, 5-level nesting, window across two daylight-saving switches, reversed declaration order, five-week project vacation, Sunday-to-Thursday night shift)",
+    "'wide7' family: the two ten-task bases of mc/props/wide.py restricted to the core dialect (efforts rounded to whole hours, no alternatives, slot-aligned gaps) x every subset of <= 2 (thorough: <= 3) of 27 toggles (resolutions 30/15/10, efficiency 0.5, weekend-only resource, leaves, vacation, resource/group/task limits, gaps, priorities, container pin, month boundary, zoned hours, split hours, multi-week effort, fifth resource, 5-level nesting, window across two daylight-saving switches, reversed declaration order, five-week project vacation, Sunday-to-Thursday night shift)",
 ]
 NAMES = "abcd"
 ALLOCS = {"r1": ["r1"], "r2": ["r2"], "team": ["r1", "r2"]}
